@@ -151,7 +151,7 @@ func runUnit(spec *Spec, o *checkOpts, openKnown map[string]bool, openList []Kno
 			for _, v := range vs {
 				cexCounter++
 				file := filepath.Join(outDir, fmt.Sprintf("cex-%d.json", cexCounter))
-				obj := map[string]any{"property": spec.Property, "entry": r.Entry.Func, "msg": v.Msg, "kind": v.Kind, "model": v.Model, "order": v.Order, "params": r.Cfg.Params, "probe": probe, "package": spec.Package}
+				obj := map[string]any{"property": spec.Property, "entry": r.Entry.Func, "msg": v.Msg, "kind": v.Kind, "model": v.Model, "order": v.Order, "params": r.Cfg.Params, "probe": probe, "package": spec.Package, "extra": v.Extra}
 				b, _ := json.MarshalIndent(obj, "", " ")
 				os.WriteFile(file, b, 0o644)
 				cexs = append(cexs, cex{r.Entry.Func, file, v, probe})
